@@ -48,6 +48,8 @@ package main
 //     another package function that may (two levels) or to any call outside the read-only list below.  Read-only
 //     calls: len, cap, the methods Equal/String/After/Before/IsZero, slices.Contains/ContainsFunc/Index/IndexFunc/Equal,
 //     bytes.Equal, fmt.*.  Over-approximating "writes" is the safe direction: under RLock it breaks the discipline.
+//     The same holds for a method of the package declared on another type and called on a record (`record.touch()`):
+//     its receiver is the parameter.  Methods from other packages on a record's fields (net.IP, time.Time) only read.
 //     A constructor that receives no record (`newNameRecord(name, …)`) needs nothing: storing its result is the
 //     caller's `n.names[k] = …`, a write as before.
 //   - "the map handed to a library function".  `maps.DeleteFunc(n.names, …)` is the delete loop of CleanExpiredNames
@@ -285,6 +287,19 @@ func nbtnsLocks(repo string) (string, any, error) {
 					c, ok := n.(*ast.CallExpr)
 					if !ok || herr != nil {
 						return true
+					}
+					if sel, isSel := c.Fun.(*ast.SelectorExpr); isSel && (recIdents[rootIdent(sel.X)] || fromNames(sel.X)) {
+						// a method of the package called on a record (`record.touch()`): the receiver is the parameter
+						if callee := nbtnsMethod(decls, sel.Sel.Name); callee != nil {
+							w, err := nbtnsParamWritten(decls, callee, -1, 0)
+							if err != nil {
+								herr = fmt.Errorf("%s: %s calls %s on a record of the map: %v", fn, fd.Name.Name, sel.Sel.Name, err)
+								return true
+							}
+							if w {
+								m.WritesNames = true
+							}
+						}
 					}
 					id, ok := c.Fun.(*ast.Ident)
 					if !ok {
@@ -875,6 +890,34 @@ func nbtnsPkgFunc(decls []nbtnsDecl, name string) *ast.FuncDecl {
 	return out
 }
 
+func calledName(c *ast.CallExpr) string {
+	switch f := c.Fun.(type) {
+	case *ast.Ident:
+		return f.Name
+	case *ast.SelectorExpr:
+		return f.Sel.Name
+	}
+	return ""
+}
+
+// nbtnsMethod: the method (any receiver type other than the server's) of that name, if the name is declared once
+func nbtnsMethod(decls []nbtnsDecl, name string) *ast.FuncDecl {
+	var out *ast.FuncDecl
+	n := 0
+	for _, d := range decls {
+		if d.fd.Name.Name == name {
+			n++
+			if d.fd.Recv != nil && nbtnsIsServerMethod(d.fd) == "" {
+				out = d.fd
+			}
+		}
+	}
+	if n != 1 {
+		return nil
+	}
+	return out
+}
+
 // nbtnsParamWritten: may the package function fd write through its parameter number idx?  (normalisation "record
 // handed to a pure helper" of the file comment).  Errors: the callee is not a plain helper of a critical section.
 func nbtnsParamWritten(decls []nbtnsDecl, fd *ast.FuncDecl, idx, depth int) (bool, error) {
@@ -888,10 +931,18 @@ func nbtnsParamWritten(decls []nbtnsDecl, fd *ast.FuncDecl, idx, depth int) (boo
 			params = append(params, n.Name)
 		}
 	}
-	if idx >= len(params) {
+	p := ""
+	switch {
+	case idx == -1: // the receiver
+		if fd.Recv == nil || len(fd.Recv.List) != 1 || len(fd.Recv.List[0].Names) != 1 {
+			return false, fmt.Errorf("%s has no named receiver", name)
+		}
+		p = fd.Recv.List[0].Names[0].Name
+	case idx >= len(params):
 		return false, fmt.Errorf("%s has no named parameter %d", name, idx)
+	default:
+		p = params[idx]
 	}
-	p := params[idx]
 	// the helper itself: no goroutine, no mutex; never a function value anywhere in the package
 	var err error
 	ast.Inspect(fd.Body, func(n ast.Node) bool {
@@ -916,16 +967,19 @@ func nbtnsParamWritten(decls []nbtnsDecl, fd *ast.FuncDecl, idx, depth int) (boo
 				if id, ok := x.Fun.(*ast.Ident); ok && id.Name == name {
 					calls++
 				}
+				if sel, ok := x.Fun.(*ast.SelectorExpr); ok && sel.Sel.Name == name && idx == -1 {
+					calls++
+				}
 			case *ast.Ident:
 				if x.Name == name {
 					uses++
 				}
 			case *ast.GoStmt:
-				if id, ok := x.Call.Fun.(*ast.Ident); ok && id.Name == name {
+				if calledName(x.Call) == name {
 					err = fmt.Errorf("%s is started as a goroutine in %s", name, d.fd.Name.Name)
 				}
 			case *ast.DeferStmt:
-				if id, ok := x.Call.Fun.(*ast.Ident); ok && id.Name == name {
+				if calledName(x.Call) == name {
 					err = fmt.Errorf("%s is deferred in %s", name, d.fd.Name.Name)
 				}
 			}
